@@ -496,13 +496,27 @@ def rd_unit(u, res):
             names = [str(v) for _, vs in draws for v in vs]
             shape_ok = len(d_ii) == 1 and len(d_ij) == (1 if nij else 0) and len(draws) == len(d_ii) + len(d_ij)
             distinct = len(set(names)) == len(names)
+            if distinct and not shape_ok:
+                # the draws are organised differently (e.g. one call split afterwards): slot order unknown, so compare what does not
+                # depend on it -- u must be linear in the drawn symbols with coefficient matrix C such that C C^T = L L^T
+                allz = [v for _, vs in draws for v in vs]
+                terms = [harness.to_term(x) if not isinstance(x, (int, float)) else z3.RealVal(0) + float(x) for x in symnp.unwrap(us)]
+                Cm = np.zeros((3 * n, len(allz)))
+                zero = [(v, z3.RealVal(0)) for v in allz]
+                for kz, v in enumerate(allz):
+                    sub = [(w, z3.RealVal(1 if w.eq(v) else 0)) for w in allz]
+                    for i_, t_ in enumerate(terms):
+                        val = z3.simplify(z3.substitute(t_, *sub) - z3.substitute(t_, *zero))
+                        Cm[i_, kz] = float(val.as_fraction()) if z3.is_rational_value(val) else np.nan
+                shape_ok = bool(np.abs(Cm @ Cm.T - cols.T @ cols).max() < 1e-9)
+                d_ii = d_ij = None
             okq = shape_ok and distinct
             res.queries.append({"name": "random_seed=%s: every variate slot (%d) receives its own number of the generator stream(s) [structural fact on the stub's symbols]" % (seed_arg, len(names)),
                                 "verdict": "unsat" if okq else "sat", "seconds": 0.0, "nvars": len(names), "nontrivial": True, "hash": "rd-indep-%s-%s-%s-%s" % (gid, sid, df, seed_arg)})
             if not okq:
                 conf, what = replay_rd_seed(gid, sid, df)
                 (res.violations if conf else res.unconfirmed).append({"key": key + ":independent", "what": "random_seed=%s: %s; %s" % (seed_arg, "two variate slots receive the same random number" if shape_ok else "unexpected draws %s" % [d[0] for d in draws], what), "replay": {"unit": list(u)}})
-            else:
+            elif d_ii is not None:
                 zs = d_ii[0] + (d_ij[0] if nij else [])
                 lin2 = symnp._zeros((3 * n,))
                 for k in range(S):
